@@ -120,7 +120,7 @@ def run(rep, tier, seed):
                 g = [rng.choice([p["n_consts"], rng.randrange(p["n_consts"])]) for _ in range(pd["arity"])]
                 mid.insert(rng.randint(0, len(mid)), ("get", pd["id"], g))
             p["ops"] = [("infer", 60)] + mid + [("resetb",), ("infer", 60)]
-            if k % 4 == 3 and not quant:
+            if k % 4 == 3:
                 # a model re-used for a second episode: flush(), new data for the same individuals, inference, revision
                 # of some of the new data, then the usual reset_bounds() + infer() pair. Nothing the second episode's
                 # inference proved may be taken for data by reset_bounds().
